@@ -140,6 +140,35 @@ Proof.
   - rewrite Et. apply (parse_render_faithful_l [] r (wire_doc e) Hwf Ok).
 Qed.
 
+(** * schema-free file theorems: any well-shaped element tree, written behind a tolerated header, is split and parsed back *)
+Theorem tree_file_v2_l l h e (pretty : bool) :
+  valid2 h = true -> lay2_ok l = true -> ser_ok html_empty e = true ->
+  let it := if pretty then indent 0%nat (embed e) else embed e in
+  scalar_text (html_text html_empty it) = true ->
+  exists msg, parse_header (file2 l h (tostring_html html_empty it)) = OK (H2 h, msg)
+              /\ parse repaired msg = OK (Some (tree_of (wire_doc e))).
+Proof.
+  intros V L Hs it Hsc.
+  destruct (written_text_splits e pretty true Hs ltac:(discriminate)) as (core & trail & E & B & W & _ & P). fold it in E, P.
+  exists (html_text html_empty it). split; [|exact P].
+  unfold tostring_html. rewrite E. apply (parse_header_exact_v2_c l h core trail _ V L B W).
+  rewrite <- E. apply utf8_encoders_agree. exact Hsc.
+Qed.
+
+Theorem tree_file_v1_l l h cd e (pretty closed : bool) encbody :
+  valid1 h = true -> lay1_ok l h = true -> spec_codec (h1_charset h) = Some cd -> ser_ok html_empty e = true ->
+  (closed = false -> sgml_ok (wire_doc e) = true /\ is_agg (wire_doc e) = true) ->
+  let it := if pretty then indent 0%nat (embed e) else embed e in
+  encode_opt cd (if closed then html_text html_empty it else unclosed_text true it) = Some encbody ->
+  exists msg, parse_header (file1 l h encbody) = OK (H1 h, msg)
+              /\ parse repaired msg = OK (Some (tree_of (wire_doc e))).
+Proof.
+  intros V L SC Hs Hc it EN.
+  destruct (written_text_splits e pretty closed Hs Hc) as (core & trail & E & B & W & P & _). fold it in E.
+  exists core. split; [|exact P].
+  apply (parse_header_exact_v1_c l h cd core trail encbody V L B W SC). rewrite <- E. exact EN.
+Qed.
+
 Section FILE.
   Variable sval : Type.
   Variable conv : N -> sin sval -> result (option sval).
@@ -235,3 +264,24 @@ Section CLIENT.
     apply (file_roundtrip_v1_l sval conv unconv S lay1_str h cd i e pretty closed encbody V (HeaderInit.lay1_str_ok h V) SC Hv He Hs Hc EN).
   Qed.
 End CLIENT.
+
+(** the same at the layout str(header) has, without a schema: what the C06 engine's composed (header text, element tree) pairs need *)
+Corollary client_tree_bytes_v2_l h e (pretty : bool) :
+  valid2 h = true -> ser_ok html_empty e = true ->
+  let it := if pretty then indent 0%nat (embed e) else embed e in
+  scalar_text (html_text html_empty it) = true ->
+  exists msg, parse_header (str_v2 h ++ tostring_html html_empty it) = OK (H2 h, msg)
+              /\ parse repaired msg = OK (Some (tree_of (wire_doc e))).
+Proof. intros V Hs it Hsc. rewrite client_file_v2. apply (tree_file_v2_l lay2_str h e pretty V lay2_str_ok Hs Hsc). Qed.
+
+Corollary client_tree_bytes_v1_l h cd e (pretty closed : bool) encbody :
+  valid1 h = true -> spec_codec (h1_charset h) = Some cd -> ser_ok html_empty e = true ->
+  (closed = false -> sgml_ok (wire_doc e) = true /\ is_agg (wire_doc e) = true) ->
+  let it := if pretty then indent 0%nat (embed e) else embed e in
+  encode_opt cd (if closed then html_text html_empty it else unclosed_text true it) = Some encbody ->
+  exists msg, parse_header (str_v1 h ++ encbody) = OK (H1 h, msg)
+              /\ parse repaired msg = OK (Some (tree_of (wire_doc e))).
+Proof.
+  intros V SC Hs Hc it EN. rewrite client_file_v1.
+  apply (tree_file_v1_l lay1_str h cd e pretty closed encbody V (HeaderInit.lay1_str_ok h V) SC Hs Hc EN).
+Qed.
